@@ -128,6 +128,91 @@ mod verif_lex {
     fn lexscan_ident_ideographic_space() { run_ident_end::<5>(&[0xE3, 0x80, 0x80], 1, false); }
 
     // ---------------------------------------------------------------- U4 lextable
+    // Kani function contract on get_word_token_type (injected as `#[kani::ensures(..)]` above the function):
+    // the result is the kind of the listed keyword that equals the word ignoring ASCII case, else Identifier.
+    pub(crate) fn keyword_oracle(w: &str) -> RawTokenType {
+        let wb = w.as_bytes();
+        let mut exp = TT::Identifier;
+        let mut k = 0;
+        while k < KEYWORDS.len() {
+            let kw = KEYWORDS[k].0.as_bytes();
+            if kw.len() == wb.len() {
+                let mut eq = true;
+                let mut j = 0;
+                while j < wb.len() {
+                    let c = if wb[j] >= b'A' && wb[j] <= b'Z' { wb[j] + 32 } else { wb[j] };
+                    if c != kw[j] {
+                        eq = false;
+                    }
+                    j += 1;
+                }
+                if eq {
+                    exp = KEYWORDS[k].1;
+                }
+            }
+            k += 1;
+        }
+        exp
+    }
+
+    // the contract is discharged per word length (every ASCII word of that length)
+    fn contract_keyword<const L: usize>() {
+        let mut w = [0u8; L];
+        let mut i = 0;
+        while i < L {
+            let b: u8 = kani::any();
+            kani::assume(b < 0x80);
+            w[i] = b;
+            i += 1;
+        }
+        let _ = get_word_token_type(as_str(&w));
+    }
+    #[kani::proof_for_contract(get_word_token_type)]
+    #[kani::unwind(124)]
+    fn lextable_contract_keywords_len2() { contract_keyword::<2>(); }
+    #[kani::proof_for_contract(get_word_token_type)]
+    #[kani::unwind(124)]
+    fn lextable_contract_keywords_len3() { contract_keyword::<3>(); }
+    #[kani::proof_for_contract(get_word_token_type)]
+    #[kani::unwind(124)]
+    fn lextable_contract_keywords_len4() { contract_keyword::<4>(); }
+
+    // modular: identifier_or_keyword is checked against the CONTRACT of get_word_token_type, not its body
+    fn word_kind_modular<const WLEN: usize>() {
+        // a word of exactly WLEN identifier characters followed by `;`
+        let mut buf = [b';'; 5];
+        let mut i = 0;
+        while i < WLEN {
+            let b: u8 = kani::any();
+            kani::assume(is_ident_ascii(b));
+            buf[i] = b;
+            i += 1;
+        }
+        kani::assume((buf[0] >= b'a' && buf[0] <= b'z') || (buf[0] >= b'A' && buf[0] <= b'Z'));
+        let s = as_str(&buf);
+        let after_dot: bool = kani::any();
+        let mut state = st(false, false);
+        if after_dot {
+            state.prev_real_token = Some(TT::Op(OK::Dot));
+        }
+        let r = identifier_or_keyword(LexArgs { input: s, offset: 1, lex_state: &mut state });
+        let exp = if after_dot { TT::Identifier } else { keyword_oracle(as_str(&buf[..WLEN])) };
+        kani::cover!(exp != TT::Identifier, "a keyword");
+        assert!(r.0 == WLEN, "OB lexcomplex/word_extent: a word is the maximal run of identifier characters");
+        assert!(r.1 == exp, "OB lexcomplex/word_kind: the kind of a word is that of the keyword table, applied to exactly the word; after a dot always Identifier");
+        assert!(state.in_asm == (exp == TT::Keyword(KK::Asm)), "OB lexcomplex/asm_mode_entered: the keyword asm (and only it) switches to the asm scanner");
+    }
+    #[kani::proof]
+    #[kani::unwind(124)]
+    #[kani::stub(find_identifier_end_x86_64, find_identifier_end_generic)]
+    #[kani::stub_verified(get_word_token_type)]
+    fn lexcomplex_word_kind_modular3() { word_kind_modular::<3>(); }
+    #[kani::proof]
+    #[kani::unwind(124)]
+    #[kani::stub(find_identifier_end_x86_64, find_identifier_end_generic)]
+    #[kani::stub_verified(get_word_token_type)]
+    fn lexcomplex_word_kind_modular2() { word_kind_modular::<2>(); }
+
     fn run_keyword<const L: usize>() {
         let mut w = [0u8; L];
         let mut i = 0;
